@@ -226,3 +226,54 @@ fn codec_varbuf_bytes() {
     assert_eq!(it.next(), None);
     kani::cover!(c == 0xff);
 }
+
+// ---------------------------------------------------------------------------------------------
+// Reference LEB128 readers (crate::verif_kani::ref_*, in hx_root.rs; no io::Error, no trait objects). They serve two purposes:
+//  1. codec_ref_equiv_len*: the crate's four Leb128 reads equal them on EVERY input of each length;
+//  2. the RLE harnesses (hx_rle_load.rs) stub the four reads with them - sound for slabs no longer
+//     than the lengths proved here (assume-guarantee), and it removes io::Error's drop glue, which
+//     alone made a 2-byte decode exceed 200 s under CBMC.
+
+use crate::verif_kani::{ref_read_signed, ref_read_unsigned};
+
+fn ref_equiv<const N: usize>() {
+    let b: [u8; N] = kani::any();
+    let ru = Leb128::read_unsigned(&b);
+    let rs = Leb128::read_signed(&b);
+    assert!(ru == ref_read_unsigned(&b));
+    assert!(rs == ref_read_signed(&b));
+    match Leb128::try_read_unsigned(&b) {
+        Ok(x) => assert!(Some(x) == ref_read_unsigned(&b)),
+        Err(e) => {
+            assert!(ref_read_unsigned(&b).is_none());
+            std::mem::forget(e);
+        }
+    }
+    match Leb128::try_read_signed(&b) {
+        Ok(x) => assert!(Some(x) == ref_read_signed(&b)),
+        Err(e) => {
+            assert!(ref_read_signed(&b).is_none());
+            std::mem::forget(e);
+        }
+    }
+    kani::cover!(ru.is_some() || N == 0);
+    kani::cover!(ru.is_none());
+}
+macro_rules! ref_equiv_harness {
+    ($name:ident, $n:expr) => {
+        #[kani::proof]
+        #[kani::unwind(13)]
+        fn $name() {
+            ref_equiv::<$n>()
+        }
+    };
+}
+ref_equiv_harness!(codec_ref_equiv_len0, 0);
+ref_equiv_harness!(codec_ref_equiv_len1, 1);
+ref_equiv_harness!(codec_ref_equiv_len2, 2);
+ref_equiv_harness!(codec_ref_equiv_len3, 3);
+ref_equiv_harness!(codec_ref_equiv_len4, 4);
+ref_equiv_harness!(codec_ref_equiv_len5, 5);
+ref_equiv_harness!(codec_ref_equiv_len6, 6);
+ref_equiv_harness!(codec_ref_equiv_len10, 10);
+ref_equiv_harness!(codec_ref_equiv_len11, 11);
